@@ -12,6 +12,7 @@ CONSTANTS
   Trickies = {FALSE}
   Blanks = {FALSE}
   Eols = {"crlf"}
+  SetupLevels = {"media"}
   Kinds = {"audio", "video", "application", "image"}
   MidSchemes = {"numeric", "named", "absent"}
   BundleModes = {"none", "all"}
